@@ -91,15 +91,120 @@ def pg_lines(rng, n):
     return lines, exp
 
 
+class _NP(object):
+    """numpy seen through a recorder: np.full's fill values and RandomState.randint's upper ends are noted, so that
+    the largest sample mid_gray / white_noise can produce is observed even when a component is empty"""
+
+    def __init__(self, log):
+        import numpy
+
+        self._np, self._log = numpy, log
+        outer = self
+
+        class _RS(object):
+            def __init__(self, seed):
+                self._rs = numpy.random.RandomState(seed)
+
+            def randint(self, low, high, size, dtype=int):
+                outer._log.append(int(high) - 1)
+                return self._rs.randint(low, high, size, dtype=dtype)
+
+        class _Random(object):
+            RandomState = _RS
+
+        self.random = _Random()
+
+    def full(self, shape, value, *a, **k):
+        self._log.append(int(value))
+        return self._np.full(shape, value, *a, **k)
+
+    def __getattr__(self, k):
+        return getattr(self._np, k)
+
+
+def rand_any_format(rng):
+    """a format for the shape correspondence: regular AND irregular sizes, any pixel aspect ratio, excursions from 0"""
+    from sample_codec_features import MINIMAL_CODEC_FEATURES as CF
+    from vc2_data_tables import ColorDifferenceSamplingFormats, SourceSamplingModes, PictureCodingModes
+
+    vp = copy.deepcopy(CF["video_parameters"])
+    cdf = rng.choice([0, 1, 2])
+    w = rng.choice([1, 2, 3, 4, 5, 6, 7, 8, 9, 12, 16, 17, 24, 40, 130, 200])
+    h = rng.choice([1, 2, 3, 4, 5, 6, 7, 8, 10, 12, 16, 129, 132])
+    if rng.random() < 0.5:  # make it regular
+        w += w % (2 if cdf else 1)
+        m = (2 if cdf == 2 else 1) * 2
+        h += (-h) % m
+    numer, denom = rng.choice([(1, 1), (1, 1), (12, 11), (10, 11), (2, 1), (1, 2), (4, 3), (128, 1), (129, 1), (200, 3), (1, 3), (0, 1), (5, 5)])
+    le = rng.choice([0, 1, 2, 3, 127, 128, 219, 255, 256, 876, 1023, 65535])
+    ce = rng.choice([0, 1, 2, 224, 255, 256, 1023, 4095])
+    vp.update(frame_width=w, frame_height=h, clean_width=w, clean_height=h, left_offset=0, top_offset=0,
+              color_diff_format_index=ColorDifferenceSamplingFormats(cdf), source_sampling=SourceSamplingModes(rng.choice([0, 1])),
+              top_field_first=rng.random() < 0.5, pixel_aspect_ratio_numer=numer, pixel_aspect_ratio_denom=denom,
+              luma_offset=rng.choice([0, 16, 64]), luma_excursion=le, color_diff_offset=rng.choice([0, 128, 512]), color_diff_excursion=ce)
+    return vp, PictureCodingModes(rng.choice([0, 1]))
+
+
+def real_shapes(name, n, vp, pcm):
+    """run a REAL generator; -> the model's output format: numbers, component shapes, largest producible samples"""
+    from vc2_conformance import picture_generators as PG
+    from vc2_conformance.color_conversion import float_to_int_clipped
+
+    log = []
+    saved = PG.np
+    PG.np = _NP(log)
+    try:
+        kw = {"num_frames": n} if name in ("moving_sprite", "white_noise") else {}
+        pics = list(getattr(PG, name)(vp, pcm, **kw))
+        if name == "mid_gray":
+            tops = (log[0], log[1])
+        elif name == "white_noise":
+            tops = (log[0], log[1]) if log else (None, None)
+        else:
+            tops = (int(float_to_int_clipped(1e9, vp["luma_offset"], vp["luma_excursion"])),
+                    int(float_to_int_clipped(1e9, vp["color_diff_offset"], vp["color_diff_excursion"])))
+    except Exception as e:  # noqa
+        return "ERROR", type(e).__name__
+    finally:
+        PG.np = saved
+
+    def sh(a):
+        rows = len(a)
+        cols = sorted(set(len(r) for r in a))
+        return "%dx%s" % (rows, cols[0] if len(cols) == 1 else ("?" if cols else "*"))
+
+    body = " ".join("%d:%s/%s/%s" % (p["pic_num"], sh(p["Y"]), sh(p["C1"]), sh(p["C2"])) for p in pics) or "-"
+    return "%s | %s %s" % (body, tops[0], tops[1]), None
+
+
+def ps_lines(rng, n, count):
+    lines, exp = [], []
+    for _ in range(n):
+        vp, pcm = rand_any_format(rng)
+        for name in GENERATORS:
+            frames = rng.choice([0, 1, 1, 2, 3, 10]) if name in ("moving_sprite", "white_noise") else 1
+            out, err = real_shapes(name, frames, vp, pcm)
+            count("ps:%s:%s" % (name, "error:" + err if err else "pictures"))
+            lines.append("ps %s %d %d %d %d %d %d %d %d %d %d %d" % (
+                name, frames, vp["frame_width"], vp["frame_height"], int(vp["color_diff_format_index"]), int(vp["source_sampling"]), int(pcm),
+                int(bool(vp["top_field_first"])), vp["pixel_aspect_ratio_numer"], vp["pixel_aspect_ratio_denom"], vp["luma_excursion"], vp["color_diff_excursion"]))
+            exp.append(out)
+    return lines, exp
+
+
 class Prop(object):
     id = "C22"
-    lean_modules = ["VC2.Props.C22"]
+    lean_modules = ["VC2.Props.C22", "VC2.Props.C22Generators"]
     status = "partial"
     rule = ("regular formats (frame sizes that are multiples of the subsampling and of 2 x vertical subsampling for interlaced sources / field coding; widths 1-80 incl. widths for which the "
             "moving sprite leaves the frame; 4:4:4/4:2:2/4:2:0; progressive/interlaced; frames/fields; both field orders; offsets/excursions incl. non-full-range; all colour primaries, "
             "matrices and transfer functions; depths 1-16) x the five REAL generators: at least one picture, an even number for fields, numbered from 0, exact component sizes, integer "
-            "samples within depth; plus progressive_to_pictures on dummy arrays vs the model (count and heights)")
-    trusted = ["model PictureGen.lean (counts, heights, numbering, clipping) tied by the pg correspondence; numpy; the floating-point colour pipeline (color_conversion.py) is not modelled"]
+            "samples within depth; plus progressive_to_pictures on dummy arrays vs the model (count and heights); plus the five REAL generators vs the size model on regular and "
+            "IRREGULAR formats (widths 1-200, heights 1-132, pixel aspect ratios incl. 0:1, 129:1, excursions 0-65535, 0-10 frames)")
+    trusted = ["models PictureGen.lean (counts, heights, numbering, clipping) and PictureShape.lean (array-size semantics of the five generators and of "
+               "progressive_to_pictures / from_xyz / from_444, picture numbers, mid_gray / white_noise sample values) tied by the pg and ps correspondences",
+               "numpy and PIL behave as the size model says (validated by ps on regular and irregular formats, incl. the cases numpy rejects)",
+               "the floating-point colour pipeline (color_conversion.py) is not modelled: its result enters only through round-and-clip"]
     assumptions = ["regular formats as the property states"]
 
     def correspond(self, ctx):
@@ -107,6 +212,13 @@ class Prop(object):
         self._bad = None
         lines, exp = pg_lines(rng, ctx.n(500, 6000))
         ctx.diff("pg progressive_to_pictures (count, numbering, heights) on dummy samples: model == real", lines, exp)
+        import warnings
+
+        with warnings.catch_warnings():
+            warnings.simplefilter("ignore")  # (excursion 0 makes the real colour pipeline divide by zero: NaN warnings)
+            lines, exp = ps_lines(rng, ctx.n(400, 5000), ctx.count)
+        ctx.diff("ps the five REAL generators on regular AND irregular formats (odd sizes, any pixel aspect ratio, excursions from 0, 0-10 frames): "
+                 "numbers, component shapes, largest producible samples, or which call raises: model == real", lines, exp)
         ctx.corr_names.append("the five REAL generators on regular formats: count, parity, numbering, sizes, sample ranges")
         for _ in range(ctx.n(120, 2500)):
             vp, pcm = rand_format(rng)
